@@ -13,7 +13,7 @@ BUILTIN_EXC = {
     'AttributeError': 'Exception', 'TypeError': 'Exception', 'ValueError': 'Exception',
     'AssertionError': 'Exception', 'NotImplementedError': 'RuntimeError',
     'RuntimeError': 'Exception', 'StopIteration': 'Exception',
-    'ImportError': 'Exception',
+    'ImportError': 'Exception', 'NameError': 'Exception', 'UnboundLocalError': 'NameError',
 }
 
 
